@@ -379,7 +379,10 @@ fn gen_schema(r: &mut Rng, lazy: bool) -> Schema {
                 } else if r.chance(1, 5) {
                     s.stanzas.push(Stz::DefElems { query: (*r.pick(READ_LIST)).into(), name: name.clone() });
                 } else {
-                    s.stanzas.push(Stz::DefTag { query: (*r.pick(DEF_QUERIES)).into(), name: name.clone(), mutable: false });
+                    // (strict mode: some of the definitions are `var`; two of them on one node are
+                    // a duplicate like any other pair)
+                    let mutable = !lazy && r.chance(1, 3);
+                    s.stanzas.push(Stz::DefTag { query: (*r.pick(DEF_QUERIES)).into(), name: name.clone(), mutable });
                 }
             }
             let m = r.range(1, 3);
